@@ -258,7 +258,7 @@ impl TxnCoordinator {
 //@@ subst `definitions::Error::new(LinkError::TransferLimitExceeded, None, None)` => `mk_error(Cond::TransferLimitExceeded)` rule=R11
 //@@ subst `definitions::Error::new(AmqpError::NotAllowed, format!("{:?}", error), None)` => `mk_error(Cond::NotAllowed)` rule=R11
 //@@ subst `crate::link::LinkStateError::` => `LinkStateError::` rule=R6
-//@@ subst `.unwrap_or_else(|_err| { })` => `.unwrap_or_unit()` rule=R19
+//@@ subst `.unwrap_or_else(|_err| { })` => `.unwrap_or_unit()` rule=optional-R19
 //@@ spec
     ensures
         r is Stop,       // [C18.coordinator.receive-error-ends-the-coordinator] whatever the control link's receive reports -- the peer detached or closed it, the session stopped, a malformed control message -- the coordinator task ENDS (its Drop then aborts every transaction that was declared over the link and not discharged): it never goes on polling a link that is gone
@@ -273,6 +273,7 @@ impl TxnCoordinator {
 //@@ end
 
 //@@ fn file=fe2o3-amqp/src/transaction/coordinator.rs impl=`impl TxnCoordinator` name=event_loop as=event_loop_arm_recv
+//@@ shape loops=whilelet
 //@@ selectarm `delivery = self.inner.recv()`
 //@@ addparam delivery: Result<DeliveryS, RecvError>
 //@@ ret (Running, bool)
